@@ -46,6 +46,69 @@ def _get_node_text(node: Node) -> str:
     return node.text.decode() if node.text else ""
 
 
+_COMMENT_NODE_TYPES = ("line_comment", "block_comment")
+
+
+def _preceding_attributes(item_node: Node) -> list[Node]:
+    """Collect the attribute_item nodes attached to an item.
+
+    Walks the preceding siblings of the item. Comments (including doc comments) between
+    the attributes and the item, or between two attributes, do not detach them.
+
+    Args:
+        item_node: Function or module item node
+
+    Returns:
+        Attribute item nodes that apply to the item (nearest first)
+    """
+    attributes: list[Node] = []
+    prev_sibling = item_node.prev_sibling
+    while prev_sibling is not None:
+        if prev_sibling.type == "attribute_item":
+            attributes.append(prev_sibling)
+        elif prev_sibling.type not in _COMMENT_NODE_TYPES:
+            break
+        prev_sibling = prev_sibling.prev_sibling
+    return attributes
+
+
+def _attribute_body(attribute_item: Node) -> str:
+    """Get the text between `#[` and `]` with all whitespace removed.
+
+    Args:
+        attribute_item: An attribute_item node such as `#[cfg(test)]`
+
+    Returns:
+        Normalized attribute text, e.g. "cfg(test)" or "tokio::test(flavor=...)"
+    """
+    text = "".join(_get_node_text(attribute_item).split())
+    if text.startswith("#[") and text.endswith("]"):
+        return text[2:-1]
+    return text
+
+
+def _is_test_function_attribute(attribute_item: Node) -> bool:
+    """Check if an attribute marks a function as a test.
+
+    Matches `#[test]`, test macros whose path ends in a test-like name (`#[tokio::test]`,
+    `#[tokio::test(flavor = "multi_thread")]`, `#[rstest]`, `#[test_case(..)]`), and
+    `#[cfg(test)]`. Attributes that merely mention the word in their arguments, such as
+    `#[cfg(not(test))]` or `#[doc = "test helper"]`, do not match.
+
+    Args:
+        attribute_item: An attribute_item node
+
+    Returns:
+        True if the attribute makes the function test-only code
+    """
+    body = _attribute_body(attribute_item)
+    if body == "cfg(test)":
+        return True
+    path = body.split("(", 1)[0].split("=", 1)[0]
+    name = path.split("::")[-1]
+    return name.endswith("test") or name.startswith("test_")
+
+
 def has_test_attribute(function_node: Node) -> bool:
     """Check if a function has #[test] attribute as preceding sibling.
 
@@ -55,12 +118,7 @@ def has_test_attribute(function_node: Node) -> bool:
     Returns:
         True if function has #[test] attribute
     """
-    prev_sibling = function_node.prev_sibling
-    while prev_sibling is not None and prev_sibling.type == "attribute_item":
-        if "test" in _get_node_text(prev_sibling):
-            return True
-        prev_sibling = prev_sibling.prev_sibling
-    return False
+    return any(_is_test_function_attribute(attr) for attr in _preceding_attributes(function_node))
 
 
 def has_cfg_test_attribute(mod_node: Node) -> bool:
@@ -72,12 +130,7 @@ def has_cfg_test_attribute(mod_node: Node) -> bool:
     Returns:
         True if module has #[cfg(test)] attribute
     """
-    prev_sibling = mod_node.prev_sibling
-    while prev_sibling is not None and prev_sibling.type == "attribute_item":
-        if "cfg(test)" in _get_node_text(prev_sibling):
-            return True
-        prev_sibling = prev_sibling.prev_sibling
-    return False
+    return any(_attribute_body(attr) == "cfg(test)" for attr in _preceding_attributes(mod_node))
 
 
 def is_inside_test(node: Node) -> bool:
